@@ -4,7 +4,11 @@ From ClapModel Require Import Base.Bytes Base.Machine.
 From ClapModel Require Import Parse.Cmd Parse.Build Parse.Valid Parse.Matcher Parse.Errors Parse.Validator Parse.Parser.
 From ClapModel Require Import ParseProofs.Safe ParseProofs.Invariant ParseProofs.Totality
                               ParseProofs.TotalityMain ParseProofs.IndexInv ParseProofs.Provenance Properties.C01.
-From Coq Require Import ZArith Sorting.Sorted.
+From ClapModel Require Import ParseProofs.Actions ParseProofs.Unparse ParseProofs.UnparseProofs ParseProofs.UnparseTop
+                              ParseProofs.UnparseSub ParseProofs.UnparseTrail ParseProofs.UnparseTree ParseProofs.UnparseIdx ParseProofs.UnparseIdxTop
+                              ParseProofs.UnparseExamples.
+From Coq Require Import ZArith Sorting.Sorted List.
+Import ListNotations.
 Open Scope N_scope.
 
 (** The index discipline is closed under every primitive matcher operation the parser performs
@@ -68,3 +72,287 @@ Theorem C02_nonvacuous :
              /\ all_indices (mt_args (mt st)) <> [].
 Proof. eexists. split; [vm_compute; reflexivity|discriminate]. Qed.
 Print Assumptions C02_nonvacuous.
+
+(** * The un-parser theorem (ParseProofs/Unparse.v: definitions; UnparseProofs.v, UnparseTop.v: proofs)
+
+    An invocation of one command level is a list of items -- [--flag], [--opt=v], [--opt v1 .. vk],
+    short clusters [-abc], [-abcoV], [-abco=V], [-abco v1 .. vk], and runs of positional values --,
+    [render] prints it as tokens, [apply_items] is its meaning on parser states (one [react] per
+    occurrence with exactly that occurrence's values; an occurrence whose values are separate tokens
+    stays open in the pending buffer), [occs] its meaning as a spelling-independent list of
+    occurrences.  [pos] is the positional counter, [pst] the [ParseState] when the items start.
+    Class: [conv c] (built command: validity gate, no subcommand_precedence_over_arg, no
+    allow_missing_positional, only the last positional multiple, no argument with hyphen/negative-
+    number values, require_equals, a terminator, last or trailing_var_arg) and [wf_items c pst pos its]
+    (names resolve by exact key, short names any character but [-] (spelled in UTF-8), the first token of an item is not a subcommand
+    name, separate values are value tokens -- not starting with [-], see [C02_value_tokens] -- and at
+    most [num_args.max] of them for an option; a positional run does not directly follow an option
+    that is still open and is maximal). *)
+
+(** TOKEN LOOP.  From every state between two items ([pst_ok]: done, an option still open, or a
+    positional run open; [pend_inv]: what may be pending there), the loop of [Parser::parse] on the
+    rendered items followed by ANY rest is the loop on the rest from the state the invocation
+    denotes: every token is consumed exactly once, as the part of the item it was rendered from.
+    (An equality of results: it includes the lines where [react] rejects an occurrence.) *)
+Theorem C02_unparse_loop : forall c, conv c = true -> forall its rest pst pos vaf st,
+  wf_items c pst pos its = true -> pst_ok c pst -> pend_inv c pst st -> fs_skip st = 0 ->
+  parse_loop c (render its ++ rest) (mkL pst pos vaf false) st =
+  (do st' <- apply_items c pos its st;
+   parse_loop c rest (mkL (items_pst c pst pos its) (items_pos c pos its) (vaf || negb (is_nil its)) false) st').
+Proof. exact loop_items. Qed.
+Print Assumptions C02_unparse_loop.
+
+(** SPELLING-INDEPENDENT MEANING.  Flushing the pending occurrence after the invocation gives the
+    fold of [react] over [occs]: [--o=v], [--o v], [-ov], [-o=v], [-o v] and a cluster ending in
+    [o] all contribute the same occurrence (argument, value list); a run of positional values is
+    one occurrence of the positional the counter points at. *)
+Theorem C02_unparse_meaning : forall c, conv c = true -> forall its pst pos st, wf_items c pst pos its = true ->
+  (do st' <- apply_items c pos its st; resolve_pending c st') =
+  (do st0 <- resolve_pending c st; react_all c (occs c pos its) st0).
+Proof. exact flush_items. Qed.
+Print Assumptions C02_unparse_meaning.
+
+(** ONE LEVEL, WHOLE LINE.  [get_matches_with] on a rendered invocation (no subcommand selected,
+    no [ignore_errors]) is: the fold of [react] over the invocation's occurrences from the empty
+    matcher, then the env, default and validation phases. *)
+Theorem C02_unparse_level : forall c, conv c = true -> is_set s_ignore_errors c = false ->
+  forall f its, wf_items c PSValuesDone 1 its = true ->
+  get_matches_with (S f) c (render its) ps_new =
+  (do st1 <- react_all c (occs c 1 its) ps_new; post_loop c st1).
+Proof. exact gmw_items. Qed.
+Print Assumptions C02_unparse_level.
+
+(** CONSERVATION.  On every successful parse of a rendered invocation, for every argument:
+    (1) if the invocation gives it the occurrence groups [gs] ([denote_arg]: computed from the
+    invocation alone), the matches report exactly [gs] -- nothing dropped, duplicated or reordered;
+    (2) every entry labelled command line reports exactly the groups the invocation gives to that
+    argument -- nothing invented, nothing attributed to another argument. *)
+Theorem C02_conservation : forall c, conv c = true -> is_set s_ignore_errors c = false ->
+  forall f its st, wf_items c PSValuesDone 1 its = true ->
+  get_matches_with (S f) c (render its) ps_new = ROk st ->
+  forall a, In a (c_args c) ->
+    (forall gs, denote_arg c (a_id a) its = Some gs -> groups_of (a_id a) (mt st) = Some gs)
+    /\ (forall e, fm_get (a_id a) (mt_args (mt st)) = Some e -> m_source e = Some SCmdLine ->
+          denote_arg c (a_id a) its = Some (m_raw e)).
+Proof. exact conservation. Qed.
+Print Assumptions C02_conservation.
+
+(** For an Append argument of a command without override relations the reported groups are, in
+    command-line order, one group per occurrence, each holding that occurrence's values split only
+    at the declared delimiter ([occ_groups]/[o_vals] = [delimit] of the occurrence's values). *)
+Theorem C02_conservation_append : forall c, conv c = true -> is_set s_ignore_errors c = false ->
+  forall f its st a, wf_items c PSValuesDone 1 its = true -> no_overrides c = true ->
+  get_matches_with (S f) c (render its) ps_new = ROk st ->
+  In a (c_args c) -> a_get_action a = AAppend -> (0 < Actions.count_occ (a_id a) (occs c 1 its))%nat ->
+  groups_of (a_id a) (mt st) = Some (occ_groups c (a_id a) (occs c 1 its)).
+Proof. exact conservation_append. Qed.
+Print Assumptions C02_conservation_append.
+
+(** the side condition on separate values: any token that does not start with [-] qualifies *)
+Theorem C02_value_tokens : forall v, hd 0 v <> DASH -> value_ok v = true.
+Proof. exact value_ok_nodash. Qed.
+Print Assumptions C02_value_tokens.
+
+(** Non-vacuity: a built command satisfying [conv], and an invocation using every item kind and
+    every spelling ([--qu F -vvoAB --opt=== --mu A B,C -vm A -s= R S --yy -v T -é]) that is well
+    formed, parses, and reports the expected groups (Append order and boundaries, delimiter split,
+    the count 4 for four [v]s in three clusters, the positional runs [R S] and [T] as two
+    occurrences of the second positional). *)
+Theorem C02_unparse_nonvacuous :
+  valid UnparseEx.c0 = true /\ conv UnparseEx.c = true /\ is_set s_ignore_errors UnparseEx.c = false /\
+  no_overrides UnparseEx.c = true /\ wf_items UnparseEx.c PSValuesDone 1 UnparseEx.its = true /\
+  render UnparseEx.its =
+    [[45; 45; 113; 117]; [70]; [45; 118; 118; 111; 65; 66]; [45; 45; 111; 112; 116; 61; 61; 61];
+     [45; 45; 109; 117]; [65]; [66; 44; 67]; [45; 118; 109]; [65]; [45; 115; 61]; [82]; [83]; [45; 45; 121; 121]; [45; 118]; [84]; [45; 195; 169]] /\
+  exists st, get_matches_with 3 UnparseEx.c (render UnparseEx.its) ps_new = ROk st /\
+    groups_of [111] (mt st) = Some [[[65; 66]]; [[61; 61]]] /\
+    groups_of [109] (mt st) = Some [[[65]; [66]; [67]]; [[65]]] /\
+    groups_of [118] (mt st) = Some [[[52]]] /\
+    groups_of [102] (mt st) = Some [[[70]]] /\
+    groups_of [114] (mt st) = Some [[[82]; [83]]; [[84]]] /\
+    groups_of [101] (mt st) = Some [[s_true]].
+Proof.
+  split; [exact UnparseEx.ex_valid|]. split; [exact UnparseEx.ex_conv|]. split; [exact UnparseEx.ex_no_ignore_errors|].
+  split; [exact UnparseEx.ex_no_overrides|]. split; [exact UnparseEx.ex_wf|]. split; [exact UnparseEx.ex_render|].
+  eexists. split; [vm_compute; reflexivity|]. repeat split.
+Qed.
+Print Assumptions C02_unparse_nonvacuous.
+
+(** * Subcommands and the top level (ParseProofs/UnparseSub.v, UnparseTree.v)
+
+    An invocation tree [inv] is the items of one level, optionally followed by a subcommand name
+    (or alias) and the subcommand's own tree, or by [--] and the values after it ([ITrail]);
+    [render_inv] prints it; [run_inv] is its meaning: per
+    level the meaning of the items, the child's matches stored under the child's name, then the
+    env/default/validation phases.  Class [wf_inv] (boolean, on the built tree): every level [conv]
+    and without [ignore_errors], its items [wf_items]; a subcommand name follows only a finished
+    occurrence, is recognised, is not the generated [help], no [args_conflicts_with_subcommands];
+    [--] does not directly follow an open run of a multi-valued positional, is not a subcommand name,
+    no [dont_delimit_trailing_values], every value after it finds a positional ([wf_trail]). *)
+
+(** AFTER [--] every token is a positional value, whatever it looks like: the loop hands each value to
+    the positional the counter points at; one that takes several values takes all that remain. *)
+Theorem C02_unparse_after_escape : forall c, conv c = true -> forall vs pos pst vaf st,
+  wf_trail c pos vs = true -> pend_inv c PSValuesDone st ->
+  parse_loop c vs (mkL pst pos vaf true) st = (do s' <- trail_apply c pos vs st; ROk (LDone s')).
+Proof. exact loop_trail. Qed.
+Print Assumptions C02_unparse_after_escape.
+
+(** the command-line machinery of a level never touches the subcommand slot (results and error
+    states commute with storing anything there) *)
+Theorem C02_subcommand_slot_untouched : forall c x st,
+  resolve_pending c (ssub x st) = psub x (resolve_pending c st).
+Proof. exact resolve_pending_sub. Qed.
+Print Assumptions C02_subcommand_slot_untouched.
+
+(** THE UN-PARSER THEOREM for a command tree, by induction on the tree: [get_matches_with] on the
+    rendered tree is the tree's meaning (an equality of results, errors included). *)
+Theorem C02_unparse_tree : forall i c f, valid_tree (S f) c = true -> wf_inv c i = true ->
+  get_matches_with (S f) c (render_inv i) ps_new = run_inv c i.
+Proof. exact gmw_inv. Qed.
+Print Assumptions C02_unparse_tree.
+
+(** ... and for [try_get_matches_from_mut]: argv = binary name followed by the rendered tree.
+    ([finish_outcome] is [_do_parse]'s own last step: the merge of global values, C09.) *)
+Theorem C02_unparse : forall c0 bin i, is_set s_no_binary_name c0 = false ->
+  valid (with_bin c0 bin) = true -> wf_inv (build_self (with_bin c0 bin)) i = true ->
+  parse_top c0 (bin :: render_inv i) =
+  finish_outcome (with_bin c0 bin) (run_inv (build_self (with_bin c0 bin)) i).
+Proof. exact parse_top_inv. Qed.
+Print Assumptions C02_unparse.
+
+(** THE PLANNED FORM, for trees without global arguments ([no_globals]): parsing the rendered
+    invocation returns exactly the matches its meaning computes. *)
+Theorem C02_unparse_denote : forall c0 bin i st, is_set s_no_binary_name c0 = false ->
+  valid (with_bin c0 bin) = true -> wf_inv (build_self (with_bin c0 bin)) i = true ->
+  no_globals (build_recursive (S (S (depth (build_self (with_bin c0 bin))))) (with_bin c0 bin)) = true ->
+  run_inv (build_self (with_bin c0 bin)) i = ROk st ->
+  parse_top c0 (bin :: render_inv i) = OOk (into_inner (mt st)).
+Proof. exact parse_top_denote. Qed.
+Print Assumptions C02_unparse_denote.
+
+(** when the child succeeds, the level's own entries are the fold of [react] over the level's
+    occurrences, with the child's matches in the subcommand slot *)
+Theorem C02_unparse_sub_level : forall c its name j scb sub_st st, conv c = true ->
+  wf_items c PSValuesDone 1 its = true -> child c name = Some scb -> run_inv scb j = ROk sub_st ->
+  (run_inv c (ISub its name j) = ROk st <->
+   exists st1, react_all c (occs c 1 its) ps_new = ROk st1 /\
+               post_loop c (ssub (Some (c_name scb, into_inner (mt sub_st))) st1) = ROk st).
+Proof. exact run_inv_sub_ok. Qed.
+Print Assumptions C02_unparse_sub_level.
+
+(** CONSERVATION at the root of any tree (hence, by [C02_unparse_tree], at every level: each level
+    is parsed by [get_matches_with] on the rendering of its subtree). *)
+Theorem C02_conservation_tree : forall i c f st, valid_tree (S f) c = true -> wf_inv c i = true ->
+  get_matches_with (S f) c (render_inv i) ps_new = ROk st ->
+  forall a, In a (c_args c) ->
+    (forall gs, denote_os c (a_id a) (inv_occs c i) = Some gs -> groups_of (a_id a) (mt st) = Some gs)
+    /\ (forall e, fm_get (a_id a) (mt_args (mt st)) = Some e -> m_source e = Some SCmdLine ->
+          denote_os c (a_id a) (inv_occs c i) = Some (m_raw e)).
+Proof. exact conservation_inv. Qed.
+Print Assumptions C02_conservation_tree.
+
+(** the subcommand chain is kept: the matches hold the child's matches under the child's name *)
+Theorem C02_chain_kept : forall c its name j st, wf_inv c (ISub its name j) = true ->
+  run_inv c (ISub its name j) = ROk st ->
+  exists scb sub_st, child c name = Some scb /\ run_inv scb j = ROk sub_st /\
+    mt_sub (mt st) = Some (c_name scb, into_inner (mt sub_st)).
+Proof. exact chain_inv. Qed.
+Print Assumptions C02_chain_kept.
+
+(** Non-vacuity for trees: [prog --qu -voA go -x --name=V F] (subcommand [run] by its alias [go]):
+    the hypotheses of [C02_unparse] hold and [parse_top] reports the chain and the values. *)
+Theorem C02_unparse_tree_nonvacuous :
+  is_set s_no_binary_name UnparseEx.t0 = false /\ valid (with_bin UnparseEx.t0 UnparseEx.tbin) = true /\
+  wf_inv (build_self (with_bin UnparseEx.t0 UnparseEx.tbin)) UnparseEx.tinv = true /\
+  no_globals (build_recursive (S (S (depth (build_self (with_bin UnparseEx.t0 UnparseEx.tbin)))))
+                              (with_bin UnparseEx.t0 UnparseEx.tbin)) = true /\
+  (exists st, run_inv (build_self (with_bin UnparseEx.t0 UnparseEx.tbin)) UnparseEx.tinv = ROk st) /\
+  render_inv UnparseEx.tinv =
+    [[45; 45; 113; 117]; [45; 118; 111; 65]; [103; 111]; [45; 120]; [45; 45; 110; 97; 109; 101; 61; 86]; [70]] /\
+  exists m sm,
+    parse_top UnparseEx.t0 (UnparseEx.tbin :: render_inv UnparseEx.tinv) = OOk m /\
+    ms_sub m = Some ([114; 117; 110], sm) /\
+    UnparseEx.raw_of [111] m = Some [[[65]]] /\ UnparseEx.raw_of [118] m = Some [[[49]]] /\
+    UnparseEx.raw_of [120] sm = Some [[s_true]] /\ UnparseEx.raw_of [110] sm = Some [[[86]]] /\
+    UnparseEx.raw_of [102] sm = Some [[[70]]].
+Proof.
+  split; [exact UnparseEx.ex_tree_nobin|]. split; [exact UnparseEx.ex_tree_valid|]. split; [exact UnparseEx.ex_tree_wf|].
+  split; [exact UnparseEx.ex_tree_no_globals|]. split; [exact UnparseEx.ex_tree_run|].
+  split; [exact UnparseEx.ex_tree_render|]. exact UnparseEx.ex_tree_parse.
+Qed.
+Print Assumptions C02_unparse_tree_nonvacuous.
+
+(** * The indices (ParseProofs/UnparseIdx.v, UnparseIdxTop.v) *)
+
+(** THE INDEX RULE of one occurrence, for every state with unique keys: the counter advances by one
+    for the name of an option given by flag ([name_bump]: Set/Append by [--o]/[-o]) and by one per
+    stored value ([stored_count]); the argument's index list becomes what it keeps (Append) followed
+    by exactly the counter values of the stored values ([span k n] = k+1 .. k+n). *)
+Theorem C02_index_rule : forall c idn s a raw ti st st' pr,
+  wf_m (mt st) -> ~ In (a_id a) (groups_for_arg c (a_id a)) ->
+  react_core c idn s a raw ti st = ROk (st', pr) ->
+  exists vals, occ_values c a raw ti = Some vals /\
+    cur_idx st' = cur_idx st + name_bump idn s a + N.of_nat (stored_count a vals) /\
+    idx_of (a_id a) (mt st') =
+      Some (kept_idx c s a (idx_of (a_id a) (mt st)) ++ span (cur_idx st + name_bump idn s a) (stored_count a vals)).
+Proof. exact react_core_idx. Qed.
+Print Assumptions C02_index_rule.
+
+(** INDICES OF AN INVOCATION.  At the root of any tree (hence at every level) the index list
+    reported for an argument is the one the invocation denotes ([denote_idx_os]: the fold of the index
+    rule over the level's occurrences [inv_occs], counter starting at 0). *)
+Theorem C02_indices_tree : forall i c f st, valid_tree (S f) c = true -> wf_inv c i = true ->
+  get_matches_with (S f) c (render_inv i) ps_new = ROk st ->
+  forall a ix, In a (c_args c) -> denote_idx_os c (a_id a) (inv_occs c i) = Some ix ->
+  idx_of (a_id a) (mt st) = Some ix.
+Proof. exact indices_inv. Qed.
+Print Assumptions C02_indices_tree.
+
+(** INDICES INCREASE IN ARGV ORDER.  The index events of a level, taken in command-line order
+    ([events_os]: one entry per occurrence, the indices of its stored values), form one strictly
+    increasing sequence; an Append argument of a command without override relations reports exactly
+    its own events, in that order. *)
+Theorem C02_index_events_increasing : forall c os, StronglySorted N.lt (concat (map snd (events_os c os))).
+Proof. exact events_increasing. Qed.
+Print Assumptions C02_index_events_increasing.
+
+Theorem C02_indices_append : forall c os a, conv c = true -> no_overrides c = true ->
+  Forall (fun o => In (o_arg o) (c_args c)) os -> In a (c_args c) ->
+  a_get_action a = AAppend -> (0 < Actions.count_occ (a_id a) os)%nat ->
+  denote_idx_os c (a_id a) os = Some (own_events (a_id a) (events_os c os)).
+Proof. exact denote_idx_append. Qed.
+Print Assumptions C02_indices_append.
+
+(** Non-vacuity: the indices of [--qu F -vvoAB --opt=== --mu A B,C -vm A -s= R S --yy -v T -é]
+    (option names 5, 7, 9, 14, 16, 20 are consumed by [-o], [--opt], [--mu], [-m], [-s], [--yy]). *)
+Theorem C02_indices_nonvacuous :
+  denote_idx UnparseEx.c [111] UnparseEx.its = Some [6; 8] /\
+  UnparseEx.idx_after (render UnparseEx.its) [111] = Some (Some [6; 8]) /\
+  denote_idx UnparseEx.c [109] UnparseEx.its = Some [10; 11; 12; 15] /\
+  UnparseEx.idx_after (render UnparseEx.its) [109] = Some (Some [10; 11; 12; 15]) /\
+  denote_idx UnparseEx.c [114] UnparseEx.its = Some [18; 19; 23] /\
+  UnparseEx.idx_after (render UnparseEx.its) [114] = Some (Some [18; 19; 23]) /\
+  denote_idx UnparseEx.c [118] UnparseEx.its = Some [22] /\
+  UnparseEx.idx_after (render UnparseEx.its) [118] = Some (Some [22]) /\
+  denote_idx UnparseEx.c [101] UnparseEx.its = Some [24] /\
+  UnparseEx.idx_after (render UnparseEx.its) [101] = Some (Some [24]).
+Proof. exact UnparseEx.ex_idx. Qed.
+Print Assumptions C02_indices_nonvacuous.
+
+(** Non-vacuity for [--]: [prog --qu --mu A -- F -x R] -- the open option is flushed, [F] goes to the
+    first positional, [-x] and [R] (values, because they follow [--]) to the multi-valued second one. *)
+Theorem C02_unparse_trail_nonvacuous :
+  conv UnparseEx.c = true /\ valid_tree 3 UnparseEx.c = true /\ wf_inv UnparseEx.c UnparseEx.trinv = true /\
+  render_inv UnparseEx.trinv = [[45; 45; 113; 117]; [45; 45; 109; 117]; [65]; [45; 45]; [70]; [45; 120]; [82]] /\
+  UnparseEx.groups_after (render_inv UnparseEx.trinv) [109] = Some (Some [[[65]]]) /\
+  UnparseEx.groups_after (render_inv UnparseEx.trinv) [102] = Some (Some [[[70]]]) /\
+  UnparseEx.groups_after (render_inv UnparseEx.trinv) [114] = Some (Some [[[45; 120]; [82]]]) /\
+  UnparseEx.idx_after (render_inv UnparseEx.trinv) [114] = Some (Some [5; 6]) /\
+  denote_os UnparseEx.c [114] (inv_occs UnparseEx.c UnparseEx.trinv) = Some [[[45; 120]; [82]]] /\
+  denote_idx_os UnparseEx.c [114] (inv_occs UnparseEx.c UnparseEx.trinv) = Some [5; 6].
+Proof.
+  split; [exact UnparseEx.ex_conv|]. split; [exact UnparseEx.ex_trail_valid|]. split; [exact UnparseEx.ex_trail_wf|].
+  split; [exact UnparseEx.ex_trail_render|]. exact UnparseEx.ex_trail_parse.
+Qed.
+Print Assumptions C02_unparse_trail_nonvacuous.
